@@ -17,7 +17,7 @@ from ..skel import outcomes
 from .common import (call_name, enclosing_loops, iteration_segments, path_must, reaching_value,
                      short, stmt_contains)
 
-FLOORS = {'C05.L1': 1, 'C05.L2': 10, 'C05.L3': 2, 'C05.L4a': 4, 'C05.L4b': 7}
+FLOORS = {'C05.L1': 1, 'C05.L2': 10, 'C05.L3': 2, 'C05.L4a': 4, 'C05.L4b': 4}
 
 COUNTER = 'Scheduler.provision_ingest'
 STORED = {"HotBuffer.observations['stored']", "ColdBuffer.observations['stored']"}
@@ -335,6 +335,8 @@ def _and_prefix_must(logic, e, node):
 def l4b(repo, res, canon, logic):
     for c in repo.subclasses('Scheduling'):
         for f in c.methods.values():
+            if getattr(f, 'inlined', False):
+                continue      # judged where the normaliser inlined it
             fr = Frame(f)
             rm = [n for n in walk_no_nested(f.node) if isinstance(n, ast.Call) and isinstance(
                 n.func, ast.Attribute) and n.func.attr == 'remove' and isinstance(n.func.value, ast.Name)
